@@ -293,12 +293,28 @@ func cmdCheck(args []string) int {
 	}
 
 	{
+		// functions whose contract does not fit their loop structure any more are undecided as a
+		// whole (see below): their loop invariants may sit on the wrong loops and be contradictory
+		// there, which is not a broken check
+		degradedDisp := map[string]bool{}
+		for _, r := range results {
+			if len(r.G.degraded) > 0 {
+				degradedDisp[r.Display] = true
+			}
+		}
 		var keys []string
 		for k := range loopEdges {
 			keys = append(keys, k)
 		}
 		sort.Strings(keys)
 		for _, k := range keys {
+			fn := k
+			if i := strings.Index(fn, "/cover/"); i > 0 {
+				fn = fn[:i]
+			}
+			if degradedDisp[fn] {
+				continue
+			}
 			if loopEdges[k] > 0 && loopDead[k] == loopEdges[k] {
 				broken = append(broken, "vacuous: no back edge of "+k+" is reachable under the contract and the assumed callee contracts (every inv-preserve obligation of the loop holds trivially)")
 			}
